@@ -70,6 +70,37 @@ func main() {
 				os.Exit(1)
 			}
 			fmt.Println("no violation")
+		case "C06":
+			var rp reqReplay
+			a.LoadReplay(&rp)
+			w := u.ByName[rp.Wrapper]
+			rich := schema.Rich(w)
+			var del, nul []schema.Pos
+			for _, p := range schema.Positions(rich) {
+				for _, d := range rp.Deleted {
+					if p.String() == d {
+						del = append(del, p)
+					}
+				}
+				for _, d := range rp.Nulled {
+					if p.String() == d {
+						nul = append(nul, p)
+					}
+				}
+			}
+			vr := reqVariants()[0]
+			for _, c := range reqVariants() {
+				if c.name == rp.Variant {
+					vr = c
+				}
+			}
+			kind, detail := checkRequired(rich, del, nul, rp.Reader, vr)
+			fmt.Printf("type %s deleted %v nulled %v reader %s variant %s\n", rp.Wrapper, rp.Deleted, rp.Nulled, rp.Reader, rp.Variant)
+			if kind != "" {
+				fmt.Println("FAIL:", kind, detail)
+				os.Exit(1)
+			}
+			fmt.Println("no violation")
 		case "C13":
 			var rp defReplay
 			a.LoadReplay(&rp)
@@ -126,6 +157,8 @@ func main() {
 		partC01(a, rep, univName, u)
 	case "C03":
 		partC03(a, rep, univName, u)
+	case "C06":
+		partC06(a, rep, univName, u)
 	case "C10":
 		partC10(a, rep, univName, u)
 	case "C13":
